@@ -248,24 +248,6 @@ func scripted(ctx *common.Ctx, em *emitter) error {
 	if e := zombieScenario(w); e != nil {
 		return e
 	}
-	if ctx.Tier == "thorough" {
-		// a batch on both sides of db.ChunkLimit (1000): created once, delivered twice
-		one := func(u *upd, tag string) error { _, e := w.withDup(u, tag); return e }
-		if e := one(&upd{Kind: "MailboxCreated", MboxRID: "big", Name: "Big"}, "fresh"); e != nil {
-			return e
-		}
-		u := &upd{Kind: "MessagesCreated"}
-		for i := 0; i < 1001; i++ {
-			mbs := []string{"big"}
-			if i%400 == 0 {
-				mbs = append(mbs, "z2")
-			}
-			u.Items = append(u.Items, mcItem{RID: fmt.Sprintf("big%d", i), Marker: fmt.Sprintf("mbig-%d", i), Mboxes: mbs})
-		}
-		if e := one(u, "fresh"); e != nil {
-			return e
-		}
-	}
 	return err
 }
 
@@ -647,4 +629,33 @@ func restating(rng *common.Rng, sn *dbSnap, w *world, goneMsg, goneMb []string) 
 		}
 	}
 	return nil
+}
+
+// bigBatch: ONE MessagesCreated update with more than db.ChunkLimit (1000) new messages, on a server of its own, created
+// once and delivered twice. The wire view after it is compared message by message (UID, marker, flags) and the bytes of
+// EVERY message — first chunk, 1000th, 1001st included — are compared with the literal that was handed over.
+func bigBatch(ctx *common.Ctx, em *emitter) error {
+	w, err := startWorld(ctx, 99, em)
+	if err != nil {
+		return err
+	}
+	defer w.stop()
+	for _, u := range []*upd{
+		{Kind: "MailboxCreated", MboxRID: "big", Name: "Big"},
+		{Kind: "MailboxCreated", MboxRID: "big2", Name: "Big2"},
+	} {
+		if _, err := w.step(u, "fresh"); err != nil {
+			return err
+		}
+	}
+	u := &upd{Kind: "MessagesCreated"}
+	for i := 0; i < 1001; i++ {
+		mbs := []string{"big"}
+		if i%250 == 0 || i >= 999 {
+			mbs = append(mbs, "big2")
+		}
+		u.Items = append(u.Items, mcItem{RID: fmt.Sprintf("big%d", i), Marker: fmt.Sprintf("mbig-%d", i), Mboxes: mbs})
+	}
+	_, err = w.withDup(u, "fresh")
+	return err
 }
